@@ -29,6 +29,7 @@ META = {
 META["technique"] += "; symbolic evaluation of the printers' source over enumerated operator trees, re-parsed with a Pratt model whose table and associativity are read from the parser's source; string writer/reader escape-table agreement; number-form agreement against the lexer's FLOAT/INT rules; printer completeness; identifier-quoting flow from parse_string_or_identifier to __str__"
 META["level_text"] += ' Also decided (R8-R13): no constructor field the renderer reads is missing from __str__ and no behaviour is keyed on token kinds; for every operator tree up to depth 3 the printed condition re-parses to the same tree; string text is written only with escapes the decoder maps back (no Python repr, `${` escaped); float/int literals print in a form the lexer reads back as the same kind and value; names accepted as quoted strings are printed through a quoting helper. Token-level printing of `{% liquid %}` line statements beyond path tokens is not decided.'
 META["technique"] += "; symbolic evaluation of the path printers over 21 root/segment shapes read back with a model of the path grammar; declared-type lint for truthiness tests of optional scalars in printers"
+META["technique"] += '; sibling comparator UnlessTag/UnlessNode vs IfTag/IfNode for parse, constructor and printer'
 META["level_text"] += " Also decided (R15, R16): Path.__str__/PathToken.__str__ print every root/segment shape as text that reads back as the same segments; no printer drops a legal empty/zero value of an optional str/int attribute."
 
 TAGWORD = re.compile(r"\{%\x00?\s*([a-z_#]+)")
@@ -743,6 +744,11 @@ def run(prog: Program, res: Result) -> None:  # noqa: PLR0912, PLR0915
         else:
             res.fail("C12.R18", file=tstr.file, line=i.lineno, qualname="Token.__str__", construct=f"Token.__str__: {kind} not printed unconditionally in its own quotes", message=f"Token.__str__ does not print a {kind} token as {q}<value>{q} unconditionally: the value is still-escaped source text, so `\"say \\\"hi\\\"\"` re-quoted with single quotes contains an escape that is invalid there and str(template) no longer parses", what=what)
     res.floor("C12.R18", "quoted string kinds printed by Token.__str__", n18, 2)
+
+    res.rule("C12.R19", "`unless` is parsed, stored and printed exactly as `if` is: UnlessTag.parse / UnlessNode.__init__ / __str__ equal their IfTag / IfNode counterparts after renaming (an `else` tag always yields a block, so str() always prints it back; tokens and fields are the same ones)")
+    from checks.shared import check_unless_mirrors_if
+
+    check_unless_mirrors_if(prog, res, "C12.R19", only=("parse", "__init__", "__str__"))
 
 
 def _grouping_rule(prog: Program, res: Result) -> None:  # noqa: PLR0912, PLR0915
